@@ -281,6 +281,19 @@ def check_finishers(ctx, cfg):
                             okp = okp and st_ == PROVED
                     if okp and n_p:
                         evidence = "on each of the %d path(s) through this forget the iterator's claimed range is exactly partitioned into destroyed ranges and moved-out slots" % n_p
+            if evidence is None and is_forget and c.targs[0]["def"].split("::")[-1] == "GenericArrayIter":
+                # `while let Some(v) = self.next() { .. }` (or next_back): the iterator's own primitive returns None exactly when its claimed range
+                # is empty (C06.S / C03.I), so past the None exit of a loop that cannot be left any other way nothing is left to release
+                from ..loops import method_loops
+                own_next = {"<GenericArrayIter<$0,$1> as core::iter::Iterator>::next", "<GenericArrayIter<$0,$1> as core::iter::DoubleEndedIterator>::next_back"}
+                for lp in method_loops(a, own_next):
+                    recv = lp.nxt.args[0]
+                    mine = recv[0] == "P" and not recv[2].t and (recv[1] == ("local", loc) if loc is not None else recv[1] == ("local", 1))
+                    after = any(t_ == c.bb or a.dominates(t_, c.bb) for t_ in lp.none_targets)
+                    refilled = [x for x in a.calls if x is not c and x.bb not in lp.blocks and x is not lp.nxt and a.dominates(lp.nxt.bb, x.bb) and a.reaches(x.bb, c.bb)
+                                and any(y[0] == "P" and y[1] == recv[1] for y in x.args if isinstance(y, tuple) and y)]
+                    if mine and after and not lp.breaks and not refilled:
+                        evidence = "dominated by the None exit of a loop driven by the iterator's own %s (None exactly when nothing is left: C06.S), which cannot be left any other way" % lp.nxt.fn.split("::")[-1]
             if evidence is None and loc is not None:
                 # extend(&mut owner, X.into_iter()) with len(X) == N proven
                 for e in a.calls:
